@@ -3,7 +3,9 @@ package main
 import (
 	"fmt"
 	"math/rand"
+	"sort"
 	"strings"
+	"sync"
 
 	"verif/core"
 	"verif/theory"
@@ -78,11 +80,18 @@ func checkC03(c *core.Ctx) {
 	sp := theory.AllSpellings()
 	variants := 1
 	if !c.Quick() {
-		variants = 7
+		variants = 8
 	}
 	per := len(sp) * (len(sp) + 1)
 	total := len(keys) * per
 	c.Extra("swept_space", total*variants)
+	type acceptedChord struct {
+		root         theory.Note
+		bass         *theory.Note
+		degree, base string
+	}
+	accepted := map[string][]acceptedChord{}
+	var acceptedMu sync.Mutex
 	nCases := total * variants
 	if c.Quick() {
 		nCases = total + 2400 // the full --key sweep plus a seeded sample of the carried-key variants
@@ -91,7 +100,7 @@ func checkC03(c *core.Ctx) {
 		variant := i / total
 		j := i % total
 		if c.Quick() && i >= total {
-			variant = 3 + rr.Intn(4)
+			variant = 3 + rr.Intn(5)
 			j = rr.Intn(total)
 		}
 		k := keys[j/per]
@@ -125,6 +134,11 @@ func checkC03(c *core.Ctx) {
 			text = k.Tonic.String() + "[1]{key=" + k.String() + "} R[2] " + text
 			args = []string{"text", "conv", "syllable"}
 			lead = 2
+		}
+		// the key given inside braces with blanks around the entries (7)
+		if variant == 7 {
+			text += "{ bpm=120,\tkey=" + k.String() + "}"
+			args = []string{"text", "conv", "syllable"}
 		}
 		// the accidentals written with the unicode signs the lexer equally accepts (5)
 		if variant == 5 {
@@ -209,6 +223,11 @@ func checkC03(c *core.Ctx) {
 			return
 		}
 		c.Count("accepted", 1)
+		if variant == 0 {
+			acceptedMu.Lock()
+			accepted[k.String()] = append(accepted[k.String()], acceptedChord{root, bass, ch.degree, ch.base})
+			acceptedMu.Unlock()
+		}
 		if k.String() != "C" {
 			c.Nontrivial(sig)
 		}
@@ -219,4 +238,68 @@ func checkC03(c *core.Ctx) {
 			c.Sample(map[string]any{"key": k.String(), "text": text, "degree": ch.degree, "base": ch.base})
 		}
 	})
+
+	// every accepted chord of a key again, all in one text and in shuffled order: the answer for a chord must
+	// not depend on the chords converted before it
+	if c.OnlyStream == "" || c.OnlyStream == "batch" {
+		reps := c.N(2, 6)
+		c.Stream("batch", len(keys)*reps, func(i int, r *rand.Rand) {
+			k := keys[i%len(keys)]
+			acceptedMu.Lock()
+			list := append([]acceptedChord(nil), accepted[k.String()]...)
+			acceptedMu.Unlock()
+			if len(list) < 10 {
+				return
+			}
+			// a deterministic order first, then shuffle (the map above was filled concurrently)
+			sort.Slice(list, func(a, b int) bool {
+				x, y := list[a], list[b]
+				xs, ys := x.root.String(), y.root.String()
+				if x.bass != nil {
+					xs += "/" + x.bass.String()
+				}
+				if y.bass != nil {
+					ys += "/" + y.bass.String()
+				}
+				return xs < ys
+			})
+			r.Shuffle(len(list), func(a, b int) { list[a], list[b] = list[b], list[a] })
+			var b strings.Builder
+			for _, ch := range list {
+				b.WriteString(ch.root.String())
+				if ch.bass != nil {
+					b.WriteString("/" + ch.bass.String())
+				}
+				b.WriteString("[1] ")
+			}
+			res := run(c, []byte(b.String()), "text", "conv", "syllable", "--key", k.String())
+			c.Eval(1)
+			if infra(c, res) {
+				return
+			}
+			sig := "batch:" + k.String()
+			if a := abnormal(res); a != "" || !res.OK() {
+				c.Violate("batch", i, sig+":refused", fmt.Sprintf("key %s: a text made of %d chords that are each accepted alone is refused %s", k, len(list), a), obs(res))
+				return
+			}
+			inst, err := parseConvOutput(res.Stdout)
+			if err != nil || len(inst) != len(list) {
+				c.Violate("batch", i, sig+":count", fmt.Sprintf("key %s: %d chords written, %d instances printed", k, len(list), len(inst)), nil)
+				return
+			}
+			for j, ch := range list {
+				got, _ := chordOf(inst[j])
+				if got.degree != ch.degree || got.base != ch.base {
+					txt := ch.root.String()
+					if ch.bass != nil {
+						txt += "/" + ch.bass.String()
+					}
+					c.Violate("batch", i, sig+":differs", fmt.Sprintf("key %s: chord %s converts to degree %s base %q alone, but to degree %s base %q as chord %d of a longer text", k, txt, ch.degree, ch.base, got.degree, got.base, j+1), nil)
+					return
+				}
+			}
+			c.Nontrivial(fmt.Sprintf("batch:%s:%d", k, i))
+			c.Count("chords_rechecked_in_batches", len(list))
+		})
+	}
 }
